@@ -239,7 +239,7 @@ func callMarker(c httpsim.Call) string {
 
 func TestC18(t *testing.T) {
 	c := evid.New("C18")
-	c.Rule = "bulk bodies of 0-8 elements over the four actions plus unknown / wrong-case / empty action strings, well-formed data per action (posting and script mode, account and transaction targets), per-element ik, a generated success/failure pattern with error classes (insufficient funds, conflict, compilation failed, no postings, metadata override, not found, internal), continueOnFailure in {absent,true,false,1,TRUE}; side class: one element whose data does not decode. Oracle (positional model): backend calls == executable elements up to and including the first failure (all of them with continue-on-failure), in order, each with its own parameters and ik; exactly one result per processed element, results[i] describing element i; nothing after the first failure; HTTP 400 iff a processed element failed. A second family (25%) serves the bulk through a real Commander over the model store with elements whose outcome is known by construction (funded / unfunded sources, existing / missing revert and metadata targets): besides the positional answer, the persisted log must hold exactly the successful elements, in order. A fourth family (5%) is scheduled: 2-5 bulk requests are executed, parked between execution and the writing of their response (verifhook point bulk.processed) and answered in a generated order on one processor, each answer judged position by position. A third family (5%) is concurrent: 2-8 clients send bulks of 1-40 marked elements (10% failing, continue-on-failure drawn) for 1-6 rounds in parallel against one router; every answer must describe its own request position by position, with its own failure signal, and each ledger must have received exactly its own elements in order. Non-trivial = >=3 elements with a failure strictly inside; distinct by (actions, failure pattern, flag)."
+	c.Rule = "bulk bodies of 0-8 elements over the four actions plus unknown / wrong-case / empty action strings, well-formed data per action (posting and script mode, account and transaction targets), per-element ik, a generated success/failure pattern with error classes (insufficient funds, conflict, compilation failed, no postings, metadata override, not found, internal; and the ledger panicking under the element: the request dies there and must not be answered like a success), continueOnFailure in {absent,true,false,1,TRUE}; side class: one element whose data does not decode. Oracle (positional model): backend calls == executable elements up to and including the first failure (all of them with continue-on-failure), in order, each with its own parameters and ik; exactly one result per processed element, results[i] describing element i; nothing after the first failure; HTTP 400 iff a processed element failed. A second family (25%) serves the bulk through a real Commander over the model store with elements whose outcome is known by construction (funded / unfunded sources, existing / missing revert and metadata targets; metadata elements whose target the engine cannot look at -- unknown target type, non-string account id -- at which the request dies): besides the positional answer, the persisted log must hold exactly the successful elements, in order. A fourth family (5%) is scheduled: 2-5 bulk requests are executed, parked between execution and the writing of their response (verifhook point bulk.processed) and answered in a generated order on one processor, each answer judged position by position. A third family (5%) is concurrent: 2-8 clients send bulks of 1-40 marked elements (10% failing, continue-on-failure drawn) for 1-6 rounds in parallel against one router; every answer must describe its own request position by position, with its own failure signal, and each ledger must have received exactly its own elements in order. Non-trivial = >=3 elements with a failure strictly inside; distinct by (actions, failure pattern, flag)."
 	c.Assumptions = []string{"the backend is a recording fake answering from the generated failure pattern; an element with an unknown action cannot be executed and therefore counts as failing"}
 	runProp(t, c, func(rt *rapid.T) {
 		if rapid.IntRange(0, 3).Draw(rt, "realEngine") == 0 {
@@ -272,7 +272,7 @@ func TestC18(t *testing.T) {
 		failClass := make([]string, n)
 		for i := range failClass {
 			if rapid.IntRange(0, 3).Draw(rt, "fails") == 0 {
-				failClass[i] = rapid.SampledFrom([]string{"INSUFFICIENT_FUND", "VALIDATION", "NOT_FOUND", "INTERNAL", "COMPILATION_FAILED", "NO_POSTINGS", "METADATA_OVERRIDE"}).Draw(rt, "class")
+				failClass[i] = rapid.SampledFrom([]string{"INSUFFICIENT_FUND", "VALIDATION", "NOT_FOUND", "INTERNAL", "COMPILATION_FAILED", "NO_POSTINGS", "METADATA_OVERRIDE", "INSUFFICIENT_FUND", "VALIDATION", "NOT_FOUND", "INTERNAL", "PANIC"}).Draw(rt, "class")
 			}
 		}
 		flag := rapid.SampledFrom([]string{"", "", "continueOnFailure=true", "continueOnFailure=false", "continueOnFailure=1", "continueOnFailure=TRUE", "continueOnFailure=yes"}).Draw(rt, "flag")
@@ -321,6 +321,7 @@ func TestC18(t *testing.T) {
 		}
 		var processed []exp
 		stoppedByBad := false
+		blewUp := false
 		for i, e := range elems {
 			if e.BadData {
 				stoppedByBad = true
@@ -328,6 +329,11 @@ func TestC18(t *testing.T) {
 			}
 			failed := !e.Known || failClass[i] != ""
 			processed = append(processed, exp{idx: i, failed: failed, call: e.Known})
+			if e.Known && failClass[i] == "PANIC" {
+				// the ledger blows up under this element: the request dies there whatever the flag says
+				blewUp = true
+				break
+			}
 			if failed && !cont {
 				break
 			}
@@ -348,6 +354,9 @@ func TestC18(t *testing.T) {
 		}
 		if stoppedByBad {
 			labels = append(labels, "undecodable-data")
+		}
+		if blewUp {
+			labels = append(labels, "ledger-panics")
 		}
 		for _, e := range elems {
 			if !e.Known {
@@ -416,6 +425,13 @@ func TestC18(t *testing.T) {
 				fail("C18/parameters", "call %d (element %d) carried ik=%q dryRun=%v, the element says ik=%q", ci, wantCalls[ci], cl.Params.IdempotencyKey, cl.Params.DryRun, e.IK)
 				return
 			}
+		}
+		if blewUp {
+			// what the dying request answers position by position is not defined; that it must not look like a success is
+			if rec.Code < 400 {
+				fail("C18/panic-not-signalled", "the ledger blew up under element %d and the request was answered with status %d", processed[len(processed)-1].idx, rec.Code)
+			}
+			return
 		}
 		// response
 		var resp struct {
@@ -487,6 +503,7 @@ func c18RealEngine(rt *rapid.T, c *evid.Collector) {
 		kind string
 		mark string
 	}
+	aborting := map[int]bool{} // positions of elements whose target the engine cannot even look at: the request dies there
 	var els []el
 	txs := 0 // transactions committed so far in this bulk (ids are 0,1,2,...)
 	reverted := map[int]bool{}
@@ -497,7 +514,13 @@ func c18RealEngine(rt *rapid.T, c *evid.Collector) {
 	// elements leave no trace, so the state is the same without continue-on-failure up to the stop
 	for i := 0; i < n; i++ {
 		mark := fmt.Sprint(2000 + i)
-		switch rapid.SampledFrom([]string{"fund", "fund", "spend-unfunded", "revert-ok", "revert-ok", "revert-spent", "revert-missing", "meta-account", "meta-missing-tx", "delete-account", "unknown"}).Draw(rt, "rkind") {
+		switch rapid.SampledFrom([]string{"fund", "fund", "spend-unfunded", "revert-ok", "revert-ok", "revert-spent", "revert-missing", "meta-account", "meta-missing-tx", "delete-account", "unknown", "odd-target"}).Draw(rt, "rkind") {
+		case "odd-target":
+			// a metadata element whose target is of no known type, or an account target that is not a string
+			act := rapid.SampledFrom([]string{"ADD_METADATA", "DELETE_METADATA"}).Draw(rt, "oddAction")
+			tgt := rapid.SampledFrom([]string{`"targetType":"FOO","targetId":"x"`, `"targetType":"","targetId":"x"`, `"targetType":"account","targetId":"x"`, `"targetType":"ACCOUNT","targetId":12`, `"targetType":"ACCOUNT","targetId":{"a":1}`}).Draw(rt, "oddTarget")
+			aborting[len(els)] = true
+			els = append(els, el{`{"action":"` + act + `","data":{` + tgt + `,"metadata":{"el":"` + mark + `"},"key":"k` + mark + `"}}`, false, "odd", mark})
 		case "revert-spent":
 			// a transaction whose funds have moved on cannot be reverted unless the element says force: the
 			// element carries no force key at all (whatever an earlier element said must not stick)
@@ -553,12 +576,17 @@ func c18RealEngine(rt *rapid.T, c *evid.Collector) {
 	var processed []int
 	anyFailed := false
 	firstFail := -1
+	aborted := false
 	for i, e := range els {
 		processed = append(processed, i)
 		if !e.ok {
 			anyFailed = true
 			if firstFail < 0 {
 				firstFail = i
+			}
+			if aborting[i] {
+				aborted = true
+				break
 			}
 			if !cont {
 				break
@@ -585,15 +613,23 @@ func c18RealEngine(rt *rapid.T, c *evid.Collector) {
 			ErrorCode    string `json:"errorCode"`
 		} `json:"data"`
 	}
-	if err := json.Unmarshal(rec.Body.Bytes(), &resp); err != nil {
+	if aborted {
+		// the request died at that element: the answer need not be positional, but it must not look like a success
+		if rec.Code < 400 {
+			fail("C18/abort-not-signalled", "element %d cannot be executed at all and the request was answered with status %d", processed[len(processed)-1], rec.Code)
+			return
+		}
+	} else if err := json.Unmarshal(rec.Body.Bytes(), &resp); err != nil {
 		fail("C18/response-undecodable", "response does not decode: %v", err)
 		return
-	}
-	if len(resp.Data) != len(processed) {
+	} else if len(resp.Data) != len(processed) {
 		fail("C18/result-count", "the response has %d result(s) for %d processed element(s)", len(resp.Data), len(processed))
 		return
 	}
 	for pi, i := range processed {
+		if aborted {
+			break
+		}
 		isErr := resp.Data[pi].ResponseType == "ERROR"
 		if isErr == els[i].ok {
 			fail("C18/position", "result %d says error=%v but element %d (%s) %s", pi, isErr, i, els[i].kind, map[bool]string{true: "must succeed", false: "must fail"}[els[i].ok])
